@@ -10,6 +10,8 @@ open Driver AGH.C09
 
 structure DState where
   st : Option (State × Ghost) := none
+  /-- between `C09.close` and `C09.open`: only the file and the clock exist -/
+  closed : Bool := false
 
 def joinWith (sep : String) (l : List String) : String := sep.intercalate l
 
@@ -53,13 +55,17 @@ def showRead : Except Fault Resp → List String
       showSeries r.dnsQueries, showSeries r.blockedFiltering,
       showSeries r.replacedSafebrowsing, showSeries r.replacedParental,
       toString r.numDNSQueries, toString r.numBlockedFiltering, toString r.numReplacedSafebrowsing,
-      toString r.numReplacedSafesearch, toString r.numReplacedParental]
+      toString r.numReplacedSafesearch, toString r.numReplacedParental,
+      -- sums of top_clients / top_queried_domains / top_blocked_domains (C09_top_lists_sum)
+      toString r.numDNSQueries,
+      toString (r.numDNSQueries - (r.numBlockedFiltering + r.numReplacedSafebrowsing + r.numReplacedSafesearch + r.numReplacedParental)),
+      toString (r.numBlockedFiltering + r.numReplacedSafebrowsing + r.numReplacedSafesearch + r.numReplacedParental)]
 
 /-- What the implementation said its read was; `none` = unparsable. -/
 def parseRead : List String → Option (Except Fault Resp)
   | ["panic"] => some (.error .indexOutOfRange)
   | ["e500"] => some (.error .unitsLen)
-  | ["ok", u, q, b, sb, p, nq, nb, nsb, nss, np] => do
+  | ["ok", u, q, b, sb, p, nq, nb, nsb, nss, np, _, _, _] => do
     let days ← (if u == "d" then some true else if u == "h" then some false else none)
     pure (.ok { days := days, dnsQueries := ← parseSeries q, blockedFiltering := ← parseSeries b
                 replacedSafebrowsing := ← parseSeries sb, replacedParental := ← parseSeries p
@@ -84,12 +90,25 @@ def answer (cls : String) (s : State) (g : Ghost) (withDB : Bool) (panics : Nat)
   -- the implementation's read is the tail after the 7 state fields
   let implRead ← parseRead (impl.drop 7)
   let agree := modelObs == impl
-  let spec := if specOK g implRead then none else some ("C09." ++ specWhy g implRead)
+  let topsBad : Bool := match implRead, impl.drop 7 with
+    | .ok r, [_, _, _, _, _, _, _, _, _, _, _, tc, tq, tb] =>
+      (match tc.toNat?, tq.toNat?, tb.toNat? with
+       | some tc, some tq, some tb => !topsOK r tc tq tb
+       | _, _, _ => true)
+    | _, _ => false
+  let spec := if !specOK g implRead then some ("C09." ++ specWhy g implRead)
+              else if g.dom && topsBad then some "C09.top-lists" else none
   let head := cls ++ ":" ++ (if g.dom then "1" else "0") ++ ":" ++ nz rd
   -- the model observation is printed in full only when it is news (it equals
   -- the implementation's fields on the same line otherwise)
   let shown := if agree && spec.isNone then [head, "=impl"] else head :: modelObs
   pure (verdict agree spec (joinWith "\t" shown))
+
+/-- Observation while the context is closed: the in-memory unit as it was, the
+file, and no read. -/
+def answerClosed (cls : String) (s : State) (g : Ghost) (impl : List String) : Option String := do
+  let modelObs := showState s true 0 ++ ["closed"]
+  pure (verdict (modelObs == impl) none (joinWith "\t" ((cls ++ ":" ++ (if g.dom then "1" else "0") ++ ":0") :: modelObs)))
 
 def parseU32 (s : String) : Option Nat := do
   let n ← s.toNat?
@@ -105,6 +124,12 @@ def stepOp (st : State × Ghost) (op : String) (ins impl : List String) : Option
     let g' := ghostStep g (.upd e n)
     let cls := if p > 0 then "upd.panic" else if s'.curr.nTotal > s.curr.nTotal then "upd.acc" else "upd.rej"
     pure ((s', g'), ← answer cls s' g' false p impl)
+  | "C09.advance", [h] =>
+    -- the UnitID generator moves, nothing else happens (no flush)
+    let h ← parseU32 h
+    let s' := advance s h
+    let g' := ghostStep g (.advance h)
+    pure ((s', g'), ← answer "advance" s' g' false 0 impl)
   | "C09.tick", [id] =>
     let id ← parseU32 id
     let s' := tick s id
@@ -145,6 +170,13 @@ def stepOp (st : State × Ghost) (op : String) (ins impl : List String) : Option
     -- the property expects counts to survive the rollover
     let g' := ghostStep g (.tick id)
     pure ((s', g'), ← answer "tickfail" s' g' true 0 impl)
+  | "C09.tickfail", [id, "repaired"] =>
+    -- with fixes/c09/flush_keep_unit_on_write_error.patch a failed flush keeps the
+    -- old unit: for the module the hour has not changed yet — the model's `advance`
+    let id ← parseU32 id
+    let s' := advance s id
+    let g' := ghostStep g (.advance id)
+    pure ((s', g'), ← answer "tickfail.repaired" s' g' true 0 impl)
   | "C09.readinreset", [] =>
     -- a read while a reset is in flight must still be answered (with the data of
     -- before or after the reset); the model has no state "no database"
@@ -153,7 +185,7 @@ def stepOp (st : State × Ghost) (op : String) (ins impl : List String) : Option
       let s' := clear s
       let g' := ghostStep g .clear
       let line ← answer "readinreset" s' g' true 0 rest
-      if mid == "mid=ok" then pure ((s', g'), line)
+      if mid == "mid=ok" || mid == "mid=blocked" then pure ((s', g'), line)
       else
         let rd := getData s'
         pure ((s', g'), verdict false (some "C09.read-fails-during-reset")
@@ -292,7 +324,7 @@ def step (d : DState) (line : String) : DState × String :=
             let s ← new [] clock l en
             let g := Ghost.init clock l en
             pure ((s, g), ← answer "reset" s g true 0 impl)) with
-          | some (st, o) => ({ st := some st }, o)
+          | some (st, o) => ({ st := some st, closed := false }, o)
           | none => ({ st := none }, "bad-op")
         | _ => ({ st := none }, "bad-op")
       else if op == "C09.conc" then
@@ -304,9 +336,37 @@ def step (d : DState) (line : String) : DState × String :=
       else
         match d.st with
         | none => (d, "bad-op")
-        | some st =>
-          match stepOp st op ins impl with
-          | some (st', o) => ({ st := some st' }, o)
-          | none => (d, "bad-op")
+        | some (s, g) =>
+          if d.closed then
+            -- only time passing and New are possible on a closed context
+            match op, ins with
+            | "C09.advance", [h] =>
+              match (do
+                let h ← parseU32 h
+                let s' := advance s h
+                let g' := ghostStep g (.advance h)
+                pure ((s', g'), ← answerClosed "down.advance" s' g' impl)) with
+              | some (st', o) => ({ st := some st', closed := true }, o)
+              | none => (d, "bad-op")
+            | "C09.open", [l, en] =>
+              match (do
+                let l ← l.toNat?
+                let en ← parseBool en
+                let s' ← openOp s l en
+                let g' := ghostStep g (.restart g.clock l en)
+                let cls := if s'.curr.id = s.curr.id then "open.same" else "open.later"
+                pure ((s', g'), ← answer cls s' g' true 0 impl)) with
+              | some (st', o) => ({ st := some st', closed := false }, o)
+              | none => (d, "bad-op")
+            | _, _ => (d, "bad-op")
+          else if op == "C09.close" then
+            let s' := closeOp s
+            match answerClosed (if s.clock = s.curr.id then "close" else "close.lag") s' g impl with
+            | some o => ({ st := some (s', g), closed := true }, o)
+            | none => (d, "bad-op")
+          else
+            match stepOp (s, g) op ins impl with
+            | some (st', o) => ({ st := some st' }, o)
+            | none => (d, "bad-op")
 
 def main : IO Unit := run step {}
